@@ -223,3 +223,26 @@ M("c09_cube_component_6_accepted", "C09", "ak/color.py",
 M("c09_bytes_suffix_missing_for_effects_only", "C09", "ak/color.py",
   "        if make_bytes:\n            color_prefix = color_prefix.encode()\n            color_suffix = color_suffix.encode()",
   "        if make_bytes:\n            color_prefix = color_prefix.encode()\n            color_suffix = color_suffix.encode() if (color is not None or bg_color is not None) else b\"\"")
+
+# ---------------------------------------------------------------- C14
+M("c14_revert_dash_with_parent", "C14", "ak/color.py",
+  "            elif self.fg_color == \"-\":\n                self.fg_color = None\n            if self.bg_color == \"\":\n                self.bg_color = parent.bg_color\n            elif self.bg_color == \"-\":\n                self.bg_color = None\n",
+  "            if self.bg_color == \"\":\n                self.bg_color = parent.bg_color\n")
+M("c14_parent_modifiers_win", "C14", "ak/color.py",
+  "            self.modifiers = {**parent.modifiers, **self.modifiers}",
+  "            self.modifiers = {**self.modifiers, **parent.modifiers}")
+M("c14_cache_not_reset", "C14", "ak/color.py",
+  "        if any(synt_id not in self.syntax_map for synt_id in new_items):\n            self._cache = {}",
+  "        if all(synt_id not in self.syntax_map for synt_id in new_items):\n            self._cache = {}")
+M("c14_last_registration_wins", "C14", "ak/color.py",
+  "            if synt_id in self.syntax_map:\n                # properties of this syntax are defined already. Probably in\n                # config file.\n                continue",
+  "            if synt_id in self.syntax_map and self.syntax_map[synt_id].src_obj_name == 'config':\n                continue")
+M("c14_no_color_only_for_parentless", "C14", "ak/color.py",
+  "        if no_color:\n            self.color_fmt = ColorsConfig._NO_EFFECTS_FMT",
+  "        if no_color and parent is None:\n            self.color_fmt = ColorsConfig._NO_EFFECTS_FMT")
+M("c14_bg_inherits_fg_of_parent", "C14", "ak/color.py",
+  "                self.bg_color = parent.bg_color\n", "                self.bg_color = parent.fg_color\n")
+M("c14_synced_palette_resynced_only_when_nothing_pending", "C14", "ak/color.py",
+  "        if any_modifications and self is _GLOBAL_COLORS_CONF:",
+  "        if any_modifications and not cant_resolve and self is _GLOBAL_COLORS_CONF:")
+# (marking the current item in cant_resolve, or a single resolution pass, are equivalent mutants)
